@@ -514,8 +514,16 @@ func (s *Sim) checkRestartEconomy() {
 			}
 		}
 		if h := s.heldAt[wp.gen]; h != nil && h[k] {
-			s.viol("C07", "resent-delivered-file", "after its restart (generation %d) the sender transmitted [%d,%d) of %s#%.6s although that version had been delivered before the restart",
-				wp.gen, wp.beg, wp.end, wp.name, wp.hash)
+			key := "resent-delivered-file"
+			if l := s.listedAt[wp.gen]; l != nil && len(l[k]) > 0 {
+				// the receiver itself listed a (stray) partial of the delivered version, and the
+				// sender sent what that listing showed as missing
+				key = "resent-delivered-file-listed-as-stray-partial"
+			}
+			if s.viol("C07", key, "after its restart (generation %d) the sender transmitted [%d,%d) of %s#%.6s although that version had been delivered before the restart (ranges of it the receiver listed as partly received at that restart: %v)",
+				wp.gen, wp.beg, wp.end, wp.name, wp.hash, s.listedAt[wp.gen][k]) {
+				continue
+			}
 			return
 		}
 	}
